@@ -55,8 +55,8 @@ Definition is_resolved (r : rev) : bool := N.testbit (r_kind r) 2.
 
 (** [StatusReporter.Report]. [has_table]: the revisions table exists;
     [dirty]: what [CheckClean] says; [revs]: [rrw.ReadRevisions] (only read
-    when the table exists). The executor is built without options: linear
-    order, no baseline, no allow-dirty. *)
+    when the table exists). The executor is built with [WithAllowDirty(true)]
+    only (as fixed, C11-status-not-clean-empty-table): linear order, no baseline. *)
 Definition report (has_table dirty : bool) (all : list file) (revs : list rev) : sresult :=
   let applied := if has_table then revs else [] in
   (* first part: Available / Pending, or an early return *)
@@ -64,7 +64,7 @@ Definition report (has_table dirty : bool) (all : list file) (revs : list rev) :
     if negb has_table then
       let av := files_from_last_checkpoint all in inr (av, av)
     else
-      match fst (pending (mkCfg Linear None false dirty) all applied) with
+      match fst (pending (mkCfg Linear None true dirty) all applied) with
       | PNonLinear skipped pend =>
           inl (match last_opt applied with
                | None => SPanic
@@ -124,18 +124,20 @@ Inductive set_result :=
 | SetNotFound                   (* "migration with version %q not found" *)
 | SetArgs.                      (* "accepts 1 arg(s), received 0" on an empty table *)
 
+(** As fixed (C11-set-on-partial-revision): [r.Type = Execute | Resolved; r.Applied = r.Total]. *)
 Definition resolve (r : rev) : rev :=
-  mkRev (r_version r) (r_applied r) (r_total r) (r_hashes r) (r_err r) 6%N.   (* Execute | Resolved *)
+  mkRev (r_version r) (r_total r) (r_total r) (r_hashes r) (r_err r) 6%N.   (* Execute | Resolved *)
 
 Definition resolved_rev (f : file) : rev := mkRev (f_version f) 0 0 [] false 4%N.  (* Resolved *)
 
 (** [for _, r := range revs { switch { case r.Version > version: delete;
-    case r.Version == version && (r.Error != "" || r.Total != r.Applied): resolve } }]:
+    case r.Error != "" || r.Total != r.Applied: resolve } }] (as fixed: every kept row with an
+    error or partially applied, not only the row of [version]):
     every row is deleted, rewritten in place, or kept. *)
 Definition set_loop (version : bytes) (revs : list rev) : list rev :=
   flat_map (fun r =>
     if bytes_ltb version (r_version r) then []
-    else if bytes_eqb (r_version r) version && (r_err r || negb (r_total r =? r_applied r)) then [resolve r]
+    else if r_err r || negb (r_total r =? r_applied r) then [resolve r]
     else [r]) revs.
 
 (** [len(revs) == 0]: every file until one exceeds the target ([break]). *)
